@@ -78,7 +78,24 @@ fn flat_name() -> impl Strategy<Value = String> {
 
 fn dir_name() -> impl Strategy<Value = String> {
     (
-        proptest::collection::vec(prop_oneof![9 => "[A-Za-z0-9_][A-Za-z0-9_ -]{0,6}[A-Za-z0-9_]|[A-Za-z0-9_]{1,2}", 1 => "[A-Za-z0-9_]{25,45}"], 0..=2),
+        // half of the directory names come from a small pool in one of three letter cases, so that one
+        // archive spells the same directory differently (game archives do; on a case-sensitive file
+        // system these are different directories and every one of them has to be created)
+        proptest::collection::vec(
+            prop_oneof![
+                9 => "[A-Za-z0-9_][A-Za-z0-9_ -]{0,6}[A-Za-z0-9_]|[A-Za-z0-9_]{1,2}",
+                1 => "[A-Za-z0-9_]{25,45}",
+                10 => (0usize..4, 0u8..3).prop_map(|(i, c)| {
+                    let n = ["Interface", "Icons", "World", "Maps"][i];
+                    match c {
+                        0 => n.to_string(),
+                        1 => n.to_ascii_uppercase(),
+                        _ => n.to_ascii_lowercase(),
+                    }
+                }),
+            ],
+            0..=2,
+        ),
         proptest::collection::vec(any::<bool>(), 3),
         flat_name(),
     )
